@@ -51,20 +51,33 @@ func fragmentFileName(key string) string {
 		return encoded
 	}
 
-	// Fragment the encoded string
+	// Fragment the encoded string. Every directory fragment ends with
+	// dirMarker, a character outside the base64url alphabet, so that the file
+	// of one key can never have the same name as a directory on the path of
+	// another key (a short key whose encoding is a prefix of a long one).
+	const step = fragmentSize - len(dirMarker)
 	var parts []string
-	for i := 0; i < len(encoded); i += fragmentSize {
-		end := min(i+fragmentSize, len(encoded))
-		parts = append(parts, encoded[i:end])
+	for i := 0; i < len(encoded); i += step {
+		end := min(i+step, len(encoded))
+		if end < len(encoded) {
+			parts = append(parts, encoded[i:end]+dirMarker)
+		} else {
+			parts = append(parts, encoded[i:end])
+		}
 	}
 	return filepath.Join(parts...)
 }
+
+// dirMarker terminates the name of every directory of a fragmented key.
+const dirMarker = "="
 
 func fragmentingFileNameKeyer() fileNameKeyer {
 	return fileNameKeyerFunc(fragmentedFileNameToKey)
 }
 
 var filepathSeparatorReplacer = strings.NewReplacer(
+	dirMarker+string(filepath.Separator),
+	"",
 	string(filepath.Separator),
 	"",
 )
